@@ -115,6 +115,7 @@ Record header := {
   hd_extra_len : N;
   hd_mix : bytes;
   hd_uncle : bytes;
+  hd_root : bytes;        (* state root: compared with the consensus state's root by the ETH client (aa5560b) *)
   hd_diff : bytes;
   hd_bloom_len : N;
   hd_nonce_len : N;       (* BSC only; the ETH nonce is a uint64 *)
@@ -131,7 +132,9 @@ Inductive client_state :=
 
 Inductive cons_state :=
 | ConsTM (ts : N)          (* Timestamp.Unix() *)
-| ConsBSC (ts : N) | ConsETH (ts : N) | ConsTSS
+| ConsBSC (ts : N)
+| ConsETH (ts : N) (root : bytes)   (* Timestamp, Root *)
+| ConsTSS
 | ConsGarbage.   (* bytes under a consensus-state key that do not decode (genesis metadata only) *)
 
 (** An [Any] slot after MsgSubmitProposal / genesis decoding. *)
@@ -153,7 +156,7 @@ Definition client_type (cs : client_state) : ctype :=
     commit the ETH consensus state answered "bsc"; only the comparison with
     TSS is used by the code in scope, so that quirk is invisible here.) *)
 Definition cons_type (c : cons_state) : option ctype :=
-  match c with ConsTM _ => Some TTM | ConsBSC _ => Some TBSC | ConsETH _ => Some TETH | ConsTSS => Some TTSS | ConsGarbage => None end.
+  match c with ConsTM _ => Some TTM | ConsBSC _ => Some TBSC | ConsETH _ _ => Some TETH | ConsTSS => Some TTSS | ConsGarbage => None end.
 
 Definition latest_height (cs : client_state) : height :=
   match cs with
@@ -187,7 +190,8 @@ Definition to_bsc_header (hd : header) : outcome unit :=
     both header types) may talk about: field paths of the Go [Header]. *)
 Definition header_env (hd : header) : genv :=
   {| g_len := [("Bloom", hd_bloom_len hd); ("Nonce", hd_nonce_len hd); ("Extra", hd_extra_len hd);
-               ("MixDigest", lenN (hd_mix hd)); ("UncleHash", lenN (hd_uncle hd)); ("Difficulty", lenN (hd_diff hd))]%string;
+               ("MixDigest", lenN (hd_mix hd)); ("UncleHash", lenN (hd_uncle hd)); ("Root", lenN (hd_root hd));
+               ("Difficulty", lenN (hd_diff hd))]%string;
      g_fld := [("GasLimit", hd_gas_limit hd); ("GasUsed", hd_gas_used hd);
                ("Height.RevisionHeight", h_ht (hd_height hd)); ("Height.RevisionNumber", h_rev (hd_height hd))]%string |}.
 
@@ -404,6 +408,8 @@ Fixpoint delete_all_signer_strict (suffixes : list bytes) : outcome (list height
 Section Clients.
   Variable now : N.   (* uint64(ctx.BlockTime().Unix()) *)
   Variable strict : bool.   (* recent-signer keys parsed with the length check (0d61436); false = the pinned parser *)
+  Variable native : bytes.  (* Keeper.GetChainName: the bytes under "chainName"; the EMPTY string when the key is unset
+                               (store.Get returns nil, string(nil) = "") *)
 
   (** bsc ecrecover + the coinbase comparison.  [old]: the chain id goes through
       big.NewInt(int64(ChainId)); rlp refuses a negative big.Int and encodeSigHeader panics. *)
@@ -452,16 +458,28 @@ Section Clients.
       _ <- parse_validators hd ;;
       Ok st'.
 
-  (** eth Initialize = UpgradeState: MarshalInterface(header) (cannot fail for a decoded header),
-      SetEthHeaderIndex(header.Hash()) -> ToEthHeader -> BytesToBloom. *)
-  Definition eth_initialize (st : cstore) (hd : header) : outcome cstore :=
+  (** ConsensusState.GetRoot() as the ETH client reads it.  Only an ETH consensus state reaches the ETH client at
+      HEAD (keeper.validateConsensusType precedes); for the other kinds the model takes the empty root (their real
+      roots are not part of the model - the outcome can only differ between Ok and Err). *)
+  Definition cons_root (k : cons_state) : bytes := match k with ConsETH _ r => r | _ => [] end.
+
+  (** eth checkConsensusRoot (aa5560b; HEAD only): [state == nil] cannot hold for an unpacked Any; BOTH operands of
+      the comparison are evaluated, so header.ToEthHeader() (BytesToBloom) runs whatever the roots are. *)
+  Definition eth_check_root (hd : header) (k : cons_state) : outcome unit :=
+    _ <- to_eth_header hd ;;
+    if bytes_eqb (bytes_to_hash (cons_root k)) (bytes_to_hash (hd_root hd)) then Ok tt else Err.
+
+  (** eth Initialize = UpgradeState: checkConsensusRoot (HEAD), MarshalInterface(header) (cannot fail for a decoded
+      header), SetEthHeaderIndex(header.Hash()) -> ToEthHeader -> BytesToBloom. *)
+  Definition eth_initialize (old : bool) (st : cstore) (hd : header) (k : cons_state) : outcome cstore :=
+    _ <- (if old then Ok tt else eth_check_root hd k) ;;
     _ <- to_eth_header hd ;; Ok st.
 
   Definition initialize_gen (old : bool) (st : cstore) (cs : client_state) (kst : cons_state) : outcome cstore :=
     match cs with
     | CsTM _ _ _ _ _ _ _ _ => match kst with ConsTM _ => Ok st | _ => Err end
     | CsBSC hd chain_id epoch _ seal_ok => bsc_initialize old st hd chain_id epoch seal_ok
-    | CsETH hd _ => eth_initialize st hd
+    | CsETH hd _ => eth_initialize old st hd kst
     | CsTSS _ => Ok st
     end.
 
@@ -469,7 +487,7 @@ Section Clients.
     match cs with
     | CsTM _ _ _ _ _ _ _ _ => Ok st
     | CsBSC hd chain_id epoch trusting seal_ok => bsc_upgrade old st hd chain_id epoch trusting seal_ok
-    | CsETH hd _ => eth_initialize st hd
+    | CsETH hd _ => eth_initialize old st hd kst
     | CsTSS _ => Ok st
     end.
 
@@ -489,7 +507,7 @@ Section Clients.
         end
     | CsETH hd trusting =>
         match cons_get (c_cons st) (hd_height hd) with
-        | Some (ConsETH ts) => if (ts + trusting) mod two64 <? now then 1 else 0
+        | Some (ConsETH ts _) => if (ts + trusting) mod two64 <? now then 1 else 0
         | _ => 2
         end
     end.
@@ -552,6 +570,9 @@ Section Clients.
   Definition handle_xprop_gen (old : bool) (s : xstate) (p : xprop) : outcome xstate :=
     match p with
     | PCreate _ _ chain cs kst =>
+        (* HEAD (a9e74e1): the chain's own name is refused first; never true for an unset name, a validated chain
+           name has at least three characters *)
+        if negb old && bytes_eqb chain native then Err else
         match c_client (xget s chain) with
         | Some _ => Err
         | None => c <- unpack cs ;; k <- unpack kst ;; _ <- cons_type_ok old c k ;;
